@@ -117,6 +117,34 @@ Theorem C20_failing_execution_leaves_no_effects : forall s t o moves burn,
 Proof. exact failing_ignores_effects. Qed.
 Print Assumptions C20_failing_execution_leaves_no_effects.
 
+(* ... and when the two failing executions burn different amounts of gas: under an unlimited block gas meter the later
+   transactions of other senders keep their results in every field but the cumulative gas (which by definition
+   contains the failing transaction's own gas); the earlier results are literally the same *)
+Theorem C20_tx_failure_isolated_any_gas : forall s pre suf t o o',
+  failing o -> failing o' -> e_logs o = e_logs o' -> e_commit_err o = e_commit_err o' ->
+  blk_limit (fst (run s pre)) <= 0 -> Forall (other_ok (t_from t)) suf ->
+  exists r1 x x' rs rs',
+    snd (run s (pre ++ Eth t o :: suf)) = r1 ++ x :: rs /\
+    snd (run s (pre ++ Eth t o' :: suf)) = r1 ++ x' :: rs' /\
+    Forall2 res_eq_mod_cum rs rs'.
+Proof. exact tx_failure_isolated_any_gas. Qed.
+Print Assumptions C20_tx_failure_isolated_any_gas.
+
+Example C20_isolation_hypotheses_met :
+  let t := mkTx 5 (Some 5) true false 2000000000 0 0 100000 0 0 false 21000 in
+  let t2 := mkTx 6 (Some 6) true false 2000000000 0 0 50000 0 0 false 21000 in
+  let s := TxPipe.mkSt (fun _ => 1000000000000000000) (fun _ => 0) (fun _ => true) (fun _ => false) 0 1000000000 0 0 0 0 0 0 false false in
+  let o := mkOut 100000 true 0 [(7, 5)] 3 false in
+  let o' := mkOut 40000 true 0 [] 0 false in
+  failing o /\ failing o' /\ Forall (other_ok (t_from t)) [Eth t2 (mkOut 21000 false 0 [] 0 false)] /\
+  map r_out (snd (run s [Eth t o; Eth t2 (mkOut 21000 false 0 [] 0 false)])) = [Executed true; Executed false] /\
+  map r_cum_gas (snd (run s [Eth t o; Eth t2 (mkOut 21000 false 0 [] 0 false)])) = [100000; 121000] /\
+  map r_cum_gas (snd (run s [Eth t o'; Eth t2 (mkOut 21000 false 0 [] 0 false)])) = [40000; 61000].
+Proof.
+  cbv zeta. repeat split; try reflexivity.
+  constructor; [|constructor]. cbn. split; intros H; discriminate.
+Qed.
+
 (* ---------------------------------------------------------------- 4. event bus (rpc/ethereum/pubsub) *)
 
 (* for EVERY interleaving of any number of AddTopic / RemoveTopic / Subscribe / unsubscribe / Topics callers, publisher
